@@ -54,12 +54,14 @@ ErrRef(x) == IF x.prefix \in {"int", "none", "bytes"} THEN "TypeError"
 \* name_mixed / ipv6_upper: letter case is part of the host as given (it comes back as it went in)
 \* scope25 / scope2512: zone ids that begin like a percent-escape of '%' (they are zone ids, not escapes)
 Hosts == {"name", "fqdn", "name_mixed", "ipv4", "ipv6", "ipv6_upper", "ipv6_full", "ipv6_scoped", "ipv6_scope1", "ipv6_scope15",
-          "ipv6_scope25", "ipv6_scope2512", "ipv6_v4mapped"}
+          "ipv6_scope25", "ipv6_scope2512", "ipv6_v4mapped",
+          \* the longest spelling there is (45 characters), plain and scoped
+          "ipv6_v4full", "ipv6_v4full_scoped"}
 HpCases == {[k |-> "hp", host |-> h, port |-> p, dflt |-> d] :
               h \in Hosts, p \in {"absent", "0", "1", "80", "65535"}, d \in {"none", "1234", "0", "65535", "str5672"}}      \* str5672: the default given as the text '5672' (it comes back as a number)
 HpRef(x) == [host |-> x.host, port |-> IF x.port = "absent" THEN x.dflt ELSE x.port]
 EscapeRef(h) == h \in {"ipv6", "ipv6_upper", "ipv6_full", "ipv6_scoped", "ipv6_scope1", "ipv6_scope15", "ipv6_scope25",
-                       "ipv6_scope2512", "ipv6_v4mapped"}      \* bracketed iff IPv6
+                       "ipv6_scope2512", "ipv6_v4mapped", "ipv6_v4full", "ipv6_v4full_scoped"}      \* bracketed iff IPv6
 
 (* urlsplit: components in, components out *)
 UrlCases == {[k |-> "url", scheme |-> s, user |-> u, host |-> h, port |-> p, path |-> pa, query |-> q, frag |-> f,
